@@ -8,6 +8,10 @@ BUILT = {
          "independent EM byte parser + row model; recovery obligation after faults", "4/C01"),
 }
 PLANNED = {}
+BUILT["C08"] = ("set algebra over histories: seeded sessions drive up to four live lists through subset/remove/split (memory and files)/"
+                "intersection/drop-duplicates/merge-and-renumber/merge-and-drop-duplicates (live objects and saved paths)/renumber "
+                "particles/renumber objects with save->restart->load in between; pure-Python row-set model stepped in lock-step; "
+                "faults only on the file-touching steps", "4/C08")
 BUILT["C05"] = ("pose bookkeeping over histories: seeded sessions drive up to three live lists through update/scale/shift/rotate/flip "
                 "(dimensions as list, table, array or file), inplace=False copies and save->restart->load through EM files; pose model "
                 "(position vector + explicit 3x3 matrix per particle) stepped in lock-step; faults only on the file-touching steps", "4/C05")
